@@ -96,6 +96,8 @@ def params(desc):
     elif op in ("add_tree", "tree_copy_to"):
         m = len(desc["other"])
         ps += [("m%d" % i, "int", 1, None) for i in range(m)]
+        if regime == "R3":
+            ps += [("e%d" % i, "int", 1, None) for i in range(m)]
         ps += [P, ("deep", "bool", None, None)]
         if op == "add_tree":
             ps.append(Bf)
@@ -310,12 +312,13 @@ def step(ctx, desc, x, pre_hook=None):
         elif op in ("add_tree", "tree_copy_to"):
             oshape = tuple(desc["other"])
             olabels = [x["m%d" % i] for i in range(len(oshape))]
+            oids = [x["e%d" % i] for i in range(len(oshape))] if regime == "R3" else None
             try:
-                other, onodes = B.build(oshape, olabels, name="O")
+                other, onodes = B.build(oshape, olabels, ids=oids, name="O")
             except Exception:  # noqa: BLE001 - source tree not constructible: outside the claim
                 r.skip = True
                 return r
-            omodel = Model.from_shape(oshape, olabels)
+            omodel = Model.from_shape(oshape, olabels, ids=oids)
             for m_ in omodel.nodes:
                 m_.tok = 100 + m_.tok
             r.other = (other, list(onodes), B.observe(other, onodes))
